@@ -80,7 +80,9 @@ def impl_env(e):
 # "interix", "inferno": values that begin with an operator word (D41)
 STRVARS = {"sys_platform": ["linux", "darwin", "win32", "cygwin", "interix"], "os_name": ["posix", "nt", "inferno"],
            "platform_machine": ["x86_64", "arm64", "AMD64", "aarch64"], "platform_system": ["Linux", "Darwin", "Windows"],
-           "platform_python_implementation": ["CPython", "PyPy"], "implementation_name": ["cpython", "pypy"]}
+           "platform_python_implementation": ["CPython", "PyPy"], "implementation_name": ["cpython", "pypy"],
+           # the values of this variable in the environments hold blanks, '#', ':' and parentheses (what uname reports)
+           "platform_version": ["10.0.19041", "Darwin", "Debian"]}
 ALIASES = {"os_name": "os.name", "sys_platform": "sys.platform", "platform_machine": "platform.machine",
            "platform_python_implementation": "python_implementation"}
 def q(rng, s):
@@ -90,12 +92,19 @@ def gen_leaf(rng, focus=None):
     if kind == "pv":
         lit = rng.choice(["2.7", "3.6", "3.7", "3.8", "3.9", "3.10", "3.12"])
         op = rng.choice(["<", "<=", ">", ">=", "==", "!="])
+        if rng.random() < 0.1:
+            # a list of releases (the C06 domain has 'in' / 'not in' on the version variables too)
+            toks = rng.sample(["2.7", "3.6", "3.7", "3.8", "3.9", "3.10", "3.12"], rng.choice([1, 2, 2, 3]))
+            return f"python_version {rng.choice(['in', 'not in'])} {q(rng, rng.choice([', ', ',', ' ']).join(toks))}", "pv_in"
         if rng.random() < 0.15: return f"{q(rng, lit)} {op} python_version", "reversed"
         return f"python_version {op} {q(rng, lit)}", "pv"
     if kind == "pfv":
         three = rng.random() < 0.6
         lit = rng.choice(["3.6.0", "3.6.15", "3.7.9", "3.8.0", "3.8.10", "3.9.1", "3.9.20", "3.10.0", "3.10.5", "3.10.10", "3.12.1"]) if three else rng.choice(["3.6", "3.7", "3.9", "3.10"])
         op = rng.choice(["<", "<=", ">", ">=", "==", "!="] + (["~="] if three else []))
+        if rng.random() < 0.07:
+            toks = rng.sample(["3.6.0", "3.7.9", "3.8.0", "3.8.10", "3.9.1", "3.10.0", "3.10.5"], rng.choice([1, 2, 2]))
+            return f"python_full_version {rng.choice(['in', 'not in'])} {q(rng, rng.choice([', ', ',']).join(toks))}", "pfv_in"
         if rng.random() < 0.15: return f"{q(rng, lit)} {op} python_full_version", "reversed"
         return f"python_full_version {op} {q(rng, lit)}", "pfv"
     if kind == "rel":
@@ -187,6 +196,26 @@ def gen_degenerate_marker(rng):
     parts = [gen_leaf(rng)[0] for _ in range(rng.choice([1, 1, 2]))]
     parts.insert(rng.randrange(len(parts) + 1), f"({grp})")
     return glue.join(parts)
+
+def gen_cross_python_marker(rng):
+    """python_version and python_full_version clauses that sit in different groups of the text and meet only when the marker is
+    distributed (cnf / dnf / intersection): the pairwise merge of the two variables is then exercised on values the parser never
+    merges - minor versions of two digits, full versions ending in .0, every operator pair."""
+    (v1, a1), (v2, a2) = [(v, rng.choice(STRVARS[v])) for v in rng.sample(list(STRVARS), 2)]
+    s1, s2 = f'{v1} == "{a1}"', f'{v2} {rng.choice(["==", "!="])} "{a2}"'
+    if rng.random() < 0.5:
+        # two bounds of the same direction, the full version a two-digit minor with patch 0: the merge keeps one of them and rewrites
+        # the full version to a python_version clause
+        lo = rng.random() < 0.5
+        pv = f'python_version {rng.choice([">=", ">"] if lo else ["<", "<="])} "{rng.choice(["3.7", "3.8", "3.9", "3.11", "3.12"])}"'
+        pfv = f'python_full_version {">=" if lo else "<"} "{rng.choice(["3.10.0", "3.10.0", "3.11.0", "3.12.0"])}"'
+        x, y = (pv, pfv) if rng.random() < 0.5 else (pfv, pv)
+        return rng.choice([f"({x} or {s1}) and ({y} or {s2})", f"({x} and {s1}) or ({y} and {s2})"])
+    pv = f'python_version {rng.choice(["<", "<=", ">", ">=", "==", "!="])} "{rng.choice(["3.7", "3.8", "3.9", "3.10", "3.11"])}"'
+    pfv = f'python_full_version {rng.choice(["<", ">=", "<=", ">"])} "{rng.choice(["3.8.0", "3.9.0", "3.10.0", "3.11.0", "3.10.4", "3.9.20", "3.10.10"])}"'
+    x, y = (pv, pfv) if rng.random() < 0.5 else (pfv, pv)
+    return rng.choice([f"({x} or {s1}) and ({y} or {s2})", f"({x} and {s1}) or ({y} and {s2})", f"({x} or {s1}) and {y}",
+                       f"({x} and {s1}) or {y}", f"({x} or {s1}) and ({y} or {s1})", f"{s1} and ({x} or {s2}) and ({y} or {s2})"])
 
 def two_reversed_substring_leaves(*texts):
     """Known-finding region D35: at least two reversed substring leaves ('x' in V / 'x' not in V) with
